@@ -32,6 +32,7 @@ EXPLANATION = (
     "confined to Mainnet/Testnet below height 978392. R6 stage order builtins → swaps → deposits → withdrawals → pegging; pools processed in sorted, deduplicated order."
     " Imports C01.R6 (pro_rata / multiply_frac is exactly floor(x*mine/total)). R2 accepts the canonical-key requirement as `(l < r).then_some(k)`, as a negated early return, or as an Option::filter predicate. R6 is undecided when a stage no longer exists under its name."
     " R2 also requires that a key with a NewCustom side is refused (D23, repaired). R3 compares the pro-rata denominator on the expressions (the two side totals print alike). R3d reports what the bug-compatible deposit branch does inside its window (recorded finding D29). Shared: C01.R10."
+    ' R5b (reads call structure, not parameter positions): a per-pool request list that lives outside the per-pool step (one buffer reused for all pools of a block) is emptied on every path before it is handed to the per-pool worker.'
 )
 NOT_DECIDED = ["the constant-product inequality, the 0.5% fee and exact reserve movements (PoolState arithmetic, melstructs, trusted base)",
                "multiply_frac's floor (C01.R6 checks the callee is floor)"]
